@@ -328,9 +328,20 @@ def run_grid_case(case, ctx, kernel):
                       n=len(rows))
         ctx.count("cross_truncate_rows", len(rows))
         try:
-            got = numpoly.cross_truncate(numpy.array(rows, dtype=int).reshape(-1, dims), bound,
-                                         float(case["norm"]))
+            # the index grid in integer and floating types; one grid object is used for two calls
+            # (another norm first) and must come back unchanged
+            grid_dtype = ["int64", "float64", "uint8", "int32"][(len(rows) + dims) % 4]
+            grid = numpy.array(rows, dtype=grid_dtype).reshape(-1, dims)
+            keep = grid.copy()
+            numpoly.cross_truncate(grid, bound, 2.0 if float(case["norm"]) != 2.0 else 1.0)
+            got = numpoly.cross_truncate(grid, bound, float(case["norm"]))
             got = [bool(v) for v in got]
+            ctx.count("cross_truncate_grid_" + grid_dtype)
+            if not numpy.array_equal(grid, keep):
+                ctx.violation(dict(facts, failure="argument_modified", grid_dtype=grid_dtype),
+                              f"cross_truncate changed its {grid_dtype} index argument: "
+                              f"{grid[:3].tolist()} (was {keep[:3].tolist()})", case)
+                return
         except Exception as err:  # pylint: disable=broad-except
             ctx.violation(dict(facts, failure=exc_fact(err)), f"cross_truncate raised {err}\n{tb_short(err)}", case)
             return
